@@ -602,7 +602,10 @@ SubprocessResult run_process(const vector<string>& cmd, const string* stdin_data
       }
     }
 
-    if (timeout_usecs && (start_time < now() - timeout_usecs)) {
+    // Compare elapsed time with the timeout (now() - timeout_usecs would wrap
+    // around for timeouts larger than the current time)
+    uint64_t current_time = now();
+    if (timeout_usecs && (current_time > start_time) && (current_time - start_time > timeout_usecs)) {
       if (!terminated) {
         sp.kill(SIGTERM);
         terminated = true;
